@@ -1020,6 +1020,95 @@ func w6(r *sup.CaseResult, rng *rand.Rand, g int) {
 	r.AddObs("w6_empty_dir_removes", removes)
 }
 
+// ---- W7: refused operations in a shared directory, then writes on distinct paths --------------------------
+
+// w7: every goroutine first provokes the refusals a directory has to give (stream writer / whole-file
+// write / reader on a name that is a directory, mkdir below a file, remove of a non-empty directory,
+// file copy of a directory) and then writes its own distinct files into the same shared directory
+// with WriteFile and with stream writers. A refusal must leave nothing locked: all writes return
+// (completion or deadlock diagnosis) and are visible afterwards.
+func w7(r *sup.CaseResult, rng *rand.Rand, g int) {
+	fs, _ := memfs.NewFilespace()
+	fs.MkdirAll("shared", 0777)
+	rounds := 2 + rng.Intn(4)
+	var refused, notRefused int64
+	var mu sync.Mutex
+	want := map[string]string{}
+	ok := runGoroutines(r, g, func(i int) {
+		sub := fmt.Sprintf("shared/sub%d", i)
+		file := fmt.Sprintf("shared/file%d", i)
+		fs.MkdirAll(sub, 0777)
+		fs.WriteFile(file, []byte(mkValue(i, 0)), 0644)
+		ref := func(what string, err error) {
+			if err != nil {
+				atomic.AddInt64(&refused, 1)
+			} else {
+				atomic.AddInt64(&notRefused, 1)
+				mu.Lock()
+				r.Violate("refusal-missing", what+" succeeded", nil)
+				mu.Unlock()
+			}
+		}
+		for k := 0; k < rounds; k++ {
+			switch (i + k) % 6 {
+			case 0:
+				w, err := fs.Writer(sub)
+				if err == nil && w != nil {
+					w.Close()
+				}
+				ref(fmt.Sprintf("Writer(%q) on a directory", sub), err)
+			case 1:
+				ref(fmt.Sprintf("WriteFile(%q) on a directory", sub), fs.WriteFile(sub, []byte("x"), 0644))
+			case 2:
+				ref(fmt.Sprintf("MkdirAll(%q) below a file", file+"/below"), fs.MkdirAll(file+"/below", 0777))
+			case 3:
+				ref("Remove(\"shared\") of a non-empty directory", fs.Remove("shared"))
+			case 4:
+				rd, err := fs.Reader(sub)
+				if err == nil && rd != nil {
+					_, err = rd.Read(make([]byte, 4))
+					rd.Close()
+				}
+				ref(fmt.Sprintf("Reader(%q) on a directory", sub), err)
+			default:
+				ref(fmt.Sprintf("CopyFile(%q, …) of a directory", sub), fs.CopyFile(sub, fmt.Sprintf("shared/cp%d_%d", i, k)))
+			}
+			runtime.Gosched()
+			// writes on distinct paths in the same directory
+			p1 := fmt.Sprintf("shared/w%d_%d", i, k)
+			v1 := mkValue(i, 100+k)
+			if err := fs.WriteFile(p1, []byte(v1), 0644); err == nil {
+				mu.Lock()
+				want[p1] = v1
+				mu.Unlock()
+			}
+			p2 := fmt.Sprintf("shared/s%d_%d", i, k)
+			v2 := mkValue(i, 200+k)
+			if w, err := fs.Writer(p2); err == nil && w != nil {
+				_, e1 := w.Write([]byte(v2))
+				e2 := w.Close()
+				if e1 == nil && e2 == nil {
+					mu.Lock()
+					want[p2] = v2
+					mu.Unlock()
+				}
+			}
+		}
+	})
+	if !ok {
+		return
+	}
+	for p, v := range want {
+		if got, err := fs.ReadFile(p); err != nil || string(got) != v {
+			r.Violate("write-lost", fmt.Sprintf("%s was written successfully and reads %q (err %v) at quiescence", p, clip(string(got), 60), err), nil)
+			break
+		}
+	}
+	r.AddObs("w7_runs", 1)
+	r.AddObs("w7_refusals_followed_by_writes_in_the_same_directory", refused)
+	r.AddObs("w7_writes_after_refusals", int64(len(want)))
+}
+
 // -----------------------------------------------------------------------------------------------------------
 
 func plan(tier string, seed int64) []sup.Batch {
@@ -1049,7 +1138,7 @@ func main() {
 		ID:    "C09",
 		Level: "exploration",
 		Race:  true,
-		Rule:  "2…32 goroutines on one memfs (GOMAXPROCS 1/2/4/16, yields/sleeps injected at the three memfs verif hook points): W1 writers to distinct files in shared directories + listers (unique names, no phantom, every successful write present at quiescence); W2/W5 writers/readers/removers (whole-file and always-closed stream handles) on 1–3 shared files with unique checksummed values – every value read is complete and was written, and the recorded per-file history is checked with porcupine against a register-with-existence model; W3 N concurrent creations of the same new node (WriteFile, MkdirAll, Copy to one destination, MkdirAll vs WriteFile below it) give one node; W6 directory copies (Copy/CopyDirectory) racing with MkdirAll/Remove of empty sub-directories, RemoveAll of the copies and listers (copies complete, completion or deadlock diagnosis); W4 short mixed histories on a 6-node tree – whole-tree porcupine model (observational) plus the spelled-out clauses (an undisturbed successful mutation is visible at quiescence, names once, values whole). Process-fatal errors, panics, a deadlock diagnosis from two goroutine dumps and race reports in memfs/* decide. distinct = (workload, goroutines, seed index)",
+		Rule:  "2…32 goroutines on one memfs (GOMAXPROCS 1/2/4/16, yields/sleeps injected at the three memfs verif hook points): W1 writers to distinct files in shared directories + listers (unique names, no phantom, every successful write present at quiescence); W2/W5 writers/readers/removers (whole-file and always-closed stream handles) on 1–3 shared files with unique checksummed values – every value read is complete and was written, and the recorded per-file history is checked with porcupine against a register-with-existence model; W3 N concurrent creations of the same new node (WriteFile, MkdirAll, Copy to one destination, MkdirAll vs WriteFile below it) give one node; W6 directory copies (Copy/CopyDirectory) racing with MkdirAll/Remove of empty sub-directories, RemoveAll of the copies and listers (copies complete, completion or deadlock diagnosis); W7 refusals a directory has to give (stream writer / write / reader on a directory name, mkdir below a file, remove of a non-empty directory, file copy of a directory) followed by WriteFile and stream writes of distinct files in the same directory (all return and are visible); W4 short mixed histories on a 6-node tree – whole-tree porcupine model (observational) plus the spelled-out clauses (an undisturbed successful mutation is visible at quiescence, names once, values whole). Process-fatal errors, panics, a deadlock diagnosis from two goroutine dumps and race reports in memfs/* decide. distinct = (workload, goroutines, seed index)",
 		Assumptions: []string{
 			"'not linearizable' for a mixed W4 history is an observation only; a violation needs a witness against a clause the statement spells out (operations on related paths – ancestor/descendant – are not 'distinct paths')",
 			"'blocks forever' is restated as: the workload completes, or two goroutine dumps one second apart show the same parked stacks inside memfs and no progress (violation); watchdog expiry without that diagnosis is inconclusive",
@@ -1082,7 +1171,11 @@ func main() {
 							if g < 4 {
 								g = 4
 							}
-							w6(r, rng, g)
+							if idx%12 == 11 {
+								w7(r, rng, g)
+							} else {
+								w6(r, rng, g)
+							}
 						case 0:
 							w1(r, rng, g)
 						case 1:
@@ -1112,7 +1205,7 @@ func main() {
 			}
 		},
 		Finish: func(t *sup.Totals) string {
-			for _, k := range []string{"w1_runs", "w2_runs", "w3_runs", "w4_runs", "w5_runs", "w6_runs", "w6_directory_copies", "porcupine_ok", "memfs_hook_hits", "w4_undisturbed_mutations_checked"} {
+			for _, k := range []string{"w1_runs", "w2_runs", "w3_runs", "w4_runs", "w5_runs", "w6_runs", "w6_directory_copies", "w7_runs", "w7_refusals_followed_by_writes_in_the_same_directory", "porcupine_ok", "memfs_hook_hits", "w4_undisturbed_mutations_checked"} {
 				if t.Obs[k] == 0 {
 					return "monitor observed nothing for " + k
 				}
